@@ -180,8 +180,9 @@ theorem C15_history_partial {β : Type} {D : Down σ ω} {I : σ → Prop} (hD :
 `Survive.Comp.down` instantiates the downstream with the record manager + cache of C05/C06
 (`Zc.ingest` over `Cache.ops`), the browser callbacks of C04 (`Browser.updateRecords`/`complete`), the
 registry and answer computation of C03 (`Zc.respond`), `_add_answers_additionals` (`packetize`) and
-the text ↔ wire conversion of names.  What remains uninterpreted is `Survive.Comp.Rest`: the listeners
-that are not browsers (lookups, user listeners, scheduler bookkeeping, `notify_all`), the
+the text ↔ wire conversion of names, the lookups of C18 (`Lookup.processAll`) and the browsers' scheduler
+bookkeeping of C10 (`Sched2.reschedule2` / `cancel2`).  What remains uninterpreted is `Survive.Comp.Rest`: the
+listeners that are neither browsers nor lookups (user listeners, `notify_all`), the
 `_QueryResponse` routing with the question history, and `async_add` of the two queues. -/
 
 section composed
@@ -195,6 +196,15 @@ The `_remove_key` sites (`del cache[key][record]` for a record that is not there
 theorem C15_cache_total {c : Cache} (h : ∃ s, Refines lower c s ∧ Flat.WF lower s) (now : Ms) (recs : List Rec) :
     ∃ out, Zc.ingest lower (Cache.ops lower) c now recs = .ok out ∧ ∃ s', Refines lower out.cache s' ∧ Flat.WF lower s' :=
   cache_ingest_ok lower h now recs
+
+/-- **The browsers' scheduler bookkeeping never raises** (C10's two-container model `Sched2` composed in):
+for every list of `(new, old)` pairs handed to `async_update_records`, every scheduler satisfying the
+dict/heap invariant `HD` runs all its `reschedule_ptr_first_refresh` / `cancel_ptr_refresh` calls without
+`KeyError` (the `del self._next_scheduled_for_alias[alias]` site) and satisfies `HD` again. -/
+theorem C15_scheduler_total (now : Ms) (pairs : List (Rec × Option Rec)) (ss : List (Sched.Cfg × Sched2.S2))
+    (h : ∀ cs ∈ ss, Sched2.Inv2 cs.2) :
+    ∃ ss', schedsStep lower possible now pairs ss = .ok ss' ∧ ∀ cs ∈ ss', Sched2.Inv2 cs.2 :=
+  schedsStep_ok lower possible now pairs ss h
 
 /-- **The three component obligations of `DownOK` hold of the composition**, given the three residual
 assumptions about `Rest` (`ListenersOK`, `RouteOK`, `QueueOK`).  Discharged here: the record manager
@@ -255,7 +265,7 @@ def exRestAll : Rest Unit String := { exRest with route := fun r _ _ _ dict => .
 example : RouteOK exRestAll (fun _ => True) :=
   fun r0 _ _ _ _ _ => ⟨r0, _, rfl, trivial, by intro x hx; simpa [dictRecords, exRestAll] using hx⟩
 
-example : CInv lower ettl (fun _ : Unit => True) ⟨{}, [], [], {}, none, ()⟩ := CInv.init lower ettl _ () trivial
+example : CInv lower ettl (fun _ : Unit => True) ⟨{}, [], [], [], {}, none, ()⟩ := CInv.init lower ettl _ () trivial
 
 end composed
 
